@@ -3818,7 +3818,7 @@ impl RefFs {
                 let mut made = vec![];
                 for c in p.split('/').filter(|c| !c.is_empty()) {
                     cur = format!("{}/{}", cur, c);
-                    match self.nodes.get(&cur) { None => made.push(cur.clone()), Some(N::D) => {}, Some(_) => return Ok(false) }
+                    match self.nodes.get(&cur) { None => made.push(cur.clone()), Some(N::D) => {}, Some(N::L(_)) => return Err(()), Some(_) => return Ok(false) }
                 }
                 for m in made { self.nodes.insert(m, N::D); }
                 Ok(true)
@@ -4962,8 +4962,10 @@ def ref_apply(ex, st, ref, op, paths, data, opts=None):
             n = ref_find(ex, st, ref, cur.chars)
             if n is None:
                 made.append(dict(key=list(cur.chars), kind="d", content=None, mode=BV(32, False, 0o40755), uid=BV(32, False, 1000), gid=BV(32, False, 1000)))
+            elif n["kind"] == "l":
+                return ("skip", None)  # a link on the way (or as the target): whether it counts as a directory is not determined by the documentation
             elif n["kind"] != "d":
-                return ("err", "is_not_dir" if n["kind"] == "f" else None)
+                return ("err", "is_not_dir")
         ref["nodes"] += made
         return ("ok", p)
     if op == "remove":
